@@ -150,7 +150,7 @@ def run(R):
     cs = cases(R)
     run_mc(R, 'LTL', cs)
     long_structures(R, 'C02', 'LTL')
-    run_mc(R, 'LTL', dense_cases(R.rng, 3000 if R.thorough else 150, 'LTL'), label='_dense')
+    run_mc(R, 'LTL', dense_cases(R.rng, 4000 if R.thorough else 500, 'LTL'), label='_dense')
     # or/and nodes with 3-5 (or 1) operands, each a distinct temporal formula: an operand in position >= 3 must count
     run_mc(R, 'LTL', wide_cases(R.rng, 2500 if R.thorough else 250, 'LTL'), label='_wide_connectives')
     rng = R.rng
